@@ -534,7 +534,7 @@ func (rn *runner) GenOp(r *vh.Rand, i int) string {
 		per := 25
 		if thorough {
 			n = 2 + r.Intn(3)
-			per = 80
+			per = 40
 		}
 		return fmt.Sprintf("dialdist %s %d %d", builtinNames[r.Intn(7)], n, per*fact(n))
 	}
